@@ -363,8 +363,13 @@ def const_bool_locals(fn):
     return out
 
 
-def eval_int(n, env):
-    """evaluate an integer/bool expression under env {decl id: int}; None if not determined"""
+def eval_int(n, env, atom=None):
+    """evaluate an integer/bool expression under env {decl id: int}; atom(node) may supply the value of
+    any sub-expression (symbolic atoms); None if not determined"""
+    if atom is not None:
+        r = atom(n.strip(casts=True))
+        if r is not None:
+            return int(r)
     s = n.strip(casts=True)
     if s.k == 'DeclRefExpr' and s.declid in env:
         return int(env[s.declid])
@@ -372,19 +377,19 @@ def eval_int(n, env):
     if v is not None:
         return v
     if s.k == 'ConditionalOperator':
-        c = eval_int(s.child('cond'), env)
+        c = eval_int(s.child('cond'), env, atom)
         if c is None:
-            a, b = eval_int(s.child('then'), env), eval_int(s.child('else'), env)
+            a, b = eval_int(s.child('then'), env, atom), eval_int(s.child('else'), env, atom)
             return a if a is not None and a == b else None
-        return eval_int(s.child('then') if c else s.child('else'), env)
+        return eval_int(s.child('then') if c else s.child('else'), env, atom)
     if s.k == 'UnaryOperator' and s.op == '!':
-        x = eval_int(s.children[0], env)
+        x = eval_int(s.children[0], env, atom)
         return None if x is None else int(not x)
     if s.k == 'UnaryOperator' and s.op == '-':
-        x = eval_int(s.children[0], env)
+        x = eval_int(s.children[0], env, atom)
         return None if x is None else -x
     if s.k == 'BinaryOperator' and len(s.children) == 2:
-        a, b = eval_int(s.children[0], env), eval_int(s.children[1], env)
+        a, b = eval_int(s.children[0], env, atom), eval_int(s.children[1], env, atom)
         if s.op == '&&':
             if a == 0 or b == 0:
                 return 0
